@@ -4,6 +4,8 @@ import TakVerif.Proofs.SymTransform
 import TakVerif.Proofs.SymDedup
 import TakVerif.Proofs.Outcome
 import TakVerif.Proofs.MoveRefine
+import TakVerif.Proofs.ImageFact
+import TakVerif.Proofs.RoadInv
 
 /-!
 # C14 — the eight board symmetries commute with the rules
@@ -202,7 +204,73 @@ theorem symmetries_spec (basis : Array W) (p : Pos) (rs : List (Pos × Fin 8))
       have := hnc e hmem_e a ha hee
       exact List.mem_map.2 ⟨e, he, by rw [this, haq]⟩
 
+/-- **…and each listed position shows the list-level image under its transform**, for every position of a
+default game (`InvD`: C01's `WF`, piece budget ≤ 64, the configuration `New` stores, conservation of pieces —
+an invariant of all positions reachable by `Move` from `New` on sizes up to 6×6, `Tak.posFacts2_defaultD`).
+Together with `symmetries_spec` this is the last sentence of the property: each distinct image exactly once,
+paired with the transform that produces it. -/
+theorem symmetries_show_images (basis : Array W) (p : Pos) (hp : InvD basis p) (rs : List (Pos × Fin 8))
+    (h : symmetries basis p = .ok rs) :
+    ∀ e ∈ rs, Spec.abs e.1 = Sym.state e.2 (Spec.abs p) := by
+  intro e he
+  exact imageFact_invD basis p e.2 e.1 hp ((symmetries_mem basis p rs h).1 e he)
+
+/-- **The bit-level `Move` commutes with the symmetries** — the first sentence of the property for the model,
+with no refinement hypothesis left: for every position `p` of a default game (`InvD`, see above), each of the
+eight maps `k`, the image position `q` rebuilt by `Symmetries`' construction, and every raw move `m` other than
+the internal pass with coordinates in `[-100, 100]` (legal or not, any drop word): `TransformMove` yields `sm`,
+and either both `Move p m` and `Move q sm` are rejected, or both are accepted and the result on the image shows
+the image of the result. -/
+theorem move_equivariant_default (basis : Array W) (p q : Pos) (k : Fin 8) (hp : InvD basis p)
+    (hq : imagePos basis p k = .ok q) (m : Tak.Move) (hnp : m.type ≠ Facts.mtPass)
+    (hx : -100 ≤ m.x ∧ m.x ≤ 100) (hy : -100 ≤ m.y ∧ m.y ≤ 100) :
+    ∃ sm, transformMove p.cfg.size [k] m = .ok sm ∧
+      (match p.apply basis m, q.apply basis sm with
+       | .ok p', .ok q' => Spec.abs q' = Sym.state k (Spec.abs p')
+       | .error _, .error _ => True
+       | _, _ => False) := by
+  obtain ⟨sm, h1, h2, -⟩ := Tak.transformMove_spec hp.1.size_le [k] m hx hy
+  have hprod : Symm.prod [k] = k := by simp [Symm.prod, Sym.mul_one]
+  rw [hprod] at h2
+  refine ⟨sm, h1, ?_⟩
+  obtain ⟨wq, bq⟩ := image_wf basis p q k hp hq
+  have hsmnp : sm.type ≠ Facts.mtPass := by
+    have := Tak.transformMove_raw hp.1.size_le [k] m hx hy
+    rw [h1, hprod] at this
+    cases this
+    unfold Sym.raw
+    cases hd : dirOf m.type with
+    | none => exact hnp
+    | some d =>
+      show dirCode (Sym.dir k d) ≠ Facts.mtPass
+      generalize Sym.dir k d = d'
+      cases d' <;> decide
+  exact apply_equivariant basis k p q m sm
+    (refinesAt_of_wf basis p m hp.1 hnp (stackLimit_of_budget m hp.2.1))
+    (refinesAt_of_wf basis q sm wq hsmnp (stackLimit_of_budget sm bq))
+    (imageFact_invD basis p k q hp hq) h2
+
+/-- **…and `WinDetails()` of the rebuilt image equals that of the position** (over / winner / reason / both flat
+counts), for every analysed position of a default game: the image satisfies C02's invariant because it comes
+out of `FromSquares` (`Roads.fromSquares_roadWF`) and shows the list-level image (`imageFact_invD`). -/
+theorem winDetails_invariant_default (basis : Array W) (p q : Pos) (k : Fin 8) (hp : InvD basis p)
+    (hr : Roads.RoadWF p) (hq : imagePos basis p k = .ok q) :
+    Roads.toOutcome q.winDetails = Roads.toOutcome p.winDetails := by
+  have hrq : Roads.RoadWF q := by
+    unfold imagePos at hq
+    cases hb : imageBoard p k with
+    | error e => simp [hb, bind, Except.bind] at hq
+    | ok b =>
+      simp only [hb, bind, Except.bind] at hq
+      exact Roads.fromSquares_roadWF basis _ _ _ q hq
+  exact winDetails_invariant k p q hr hrq (imageFact_invD basis p k q hp hq)
+
 /-! ## 5. the hypotheses are satisfiable; concrete instances -/
+
+/-- `InvD` is satisfiable: it holds at the start of every default game up to 6×6 (and `posFacts2_defaultD.apply`
+carries it along every accepted non-pass move) -/
+example (basis : Array W) : ∃ p, Pos.new ⟨5, 0, 0, false⟩ = .ok p ∧ InvD basis p :=
+  ⟨_, rfl, (posFacts2_defaultD basis 5 (by decide)).new _ rfl⟩
 
 /-- a 3×3 state with a white wall on a1, a black flat on b1, a two-high stack on c2 -/
 def exState : State :=
